@@ -61,6 +61,25 @@ def ob_cost(names, cname, dname, n_obj, weights="sym", f_kind="real"):
     return f
 
 
+def ob_low_precision():
+    """the objective must have been evaluated at exactly the position the agent reports, also for numpy scalars of lower
+    precision beyond a bound not representable in that precision (see funnel.low_precision_cases)"""
+    def f():
+        from .funnel import low_precision_cases
+        n = 0
+        for label, decls, opt, task, x in low_precision_cases():
+            a = opt._init_agent(list(x))
+            n += 1
+            log = task.data["log"]
+            if len(log) != 1 or list(log[0]) != list(a.position):
+                return Failure("cost:objective-evaluated-at-another-point-than-the-reported-position", case=label,
+                               position=repr(a.position), evaluated=repr(log))
+            if a.cost != 1.5:
+                return Failure("cost:not-the-objective-value:low-precision-candidate", case=label, cost=repr(a.cost))
+        return OK if n else Failure("low-precision:no-case-ran")
+    return f
+
+
 def ob_decode(names, dname):
     def f():
         with env():
@@ -180,5 +199,6 @@ def obligations(tier):
                           (("min", 3, (1.0, 2.0, 3.0)), ("min", 2, (0.2, 0.8)))):
         name = f"reuse[{first[0]}/{first[1]}/{first[2]}->{second[0]}/{second[1]}/{second[2]}]".replace(" ", "")
         obs.append(Ob(name, ob_reuse(first, second), 900))
+    obs.append(Ob("low_precision_candidates", ob_low_precision(), 60))
     obs.append(Ob("twin_vacuity", twin(), 30, expect_refuted=True))
     return obs
